@@ -114,7 +114,7 @@ def tree(h, r, eng=None):
     x = z3.Int('!tx')
     c, c2 = r_of(m.get(k)), r_of(m.get(k2))
     return z3.And(
-        is_ref(h.get('_children', r)), r_of(h.get('_children', r)) > 0, r > 0,
+        is_ref(h.get('_children', r)), r_of(h.get('_children', r)) > 0, r > 0, m.len >= 0,
         FA([k], z3.And(z3.Select(m.pos, k) >= -1, z3.Select(m.pos, k) < m.len,
                               z3.Implies(z3.Select(m.pos, k) >= 0, z3.Select(m.keyat, z3.Select(m.pos, k)) == k)), patterns=[z3.Select(m.pos, k)]),
         FA([k], z3.Implies(m.has(k), z3.And(is_ref(m.get(k)), c > 0, c != r, Desc(r, c), z3.Not(Desc(c, r)), z3.Not(Desc(c, c)))), patterns=[m.get(k)]),
